@@ -157,6 +157,7 @@ package misc
 //@ func MnemonicToSeedBin
 //@   names mnemonic:string |  | output:[]uint8 sizedOutput:[48]uint8
 //@   props C14 C10 C09 C15
+//@   pure
 //@   panics[C10,C09,C14] "word count = %d must be even" when spec.ntok(strof(mnemonic)) % 2 != 0
 //@   panics[C10,C09,C14] "invalid word in mnemonic" when spec.ntok(strof(mnemonic)) % 2 == 0 && !allInList(mnemonic, spec.ntok(strof(mnemonic)))
 //@   panics[C10,C09,C14] "unexpected MnemonicToSeedBin output size" when spec.ntok(strof(mnemonic)) % 2 == 0 && allInList(mnemonic, spec.ntok(strof(mnemonic))) && spec.ntok(strof(mnemonic)) != 32
